@@ -244,3 +244,7 @@ V('C11-index-columns-not-prepended', 'C11', PQ, "        columns = extra_index_c
 V('C11-index-column-twice', 'C11', PQ, "            if name is not None and name not in columns and name in all_columns:", "            if name is not None and name in all_columns:", rule='C11.c')
 V('C11-global-sort', ['C11'], PQ, "        dataset_pieces = sorted(fragments, key=lambda piece: natural_sort_key(piece.path))\n        pieces.extend(dataset_pieces)\n", "        pieces.extend(fragments)\n    pieces.sort(key=lambda piece: natural_sort_key(piece.path))\n", rule='C11.d')
 V('C11-silent-rename-example-fn', 'C11', PG, "def _polygon_array_non_empty(dtype):", "def _polygon_array_non_empty(dtype):\n    # example array for Dask meta inference", expect='silent')
+V('C19-retried-writer-accumulates', 'C19', D, "        meta = write_info[0]['meta']\n        for i in range(1, len(write_info)):\n            meta.append_row_groups(write_info[i][\"meta\"])\n\n        @retryit\n        def write_metadata_file():\n            with filesystem.open(os.path.join(path, \"_metadata\"), 'wb') as f:",
+  "        meta = write_info[0]['meta']\n\n        @retryit\n        def write_metadata_file():\n            for i in range(1, len(write_info)):\n                meta.append_row_groups(write_info[i][\"meta\"])\n            with filesystem.open(os.path.join(path, \"_metadata\"), 'wb') as f:", rule='C19.d')
+V('C19-move-swallows-fnf', 'C19', D, "            if filesystem.exists(p1):\n                filesystem.move(p1, p2)", "            try:\n                filesystem.move(p1, p2)\n            except FileNotFoundError:\n                pass", rule='C19.a')
+V('C19-gate-subset', 'C19', D, "            if subpart_paths_stripped != ls_res:\n", "            if not set(ls_res).issubset(subpart_paths_stripped):\n", rule='C19.b')
